@@ -213,7 +213,11 @@ static Boolean IncCurrCodeFill(struct sLayoutCtx* pCtx) {
     } else if (!IncMaxCodeLen(pCtx, 1)) {
         return False;
     } else {
-        WAsmCode[pCtx->CurrCodeFill.FullWordCnt] = 0;
+        if (pCtx->FullWordSize == 1) {
+            BAsmCode[pCtx->CurrCodeFill.FullWordCnt] = 0;
+        } else {
+            WAsmCode[pCtx->CurrCodeFill.FullWordCnt] = 0;
+        }
         return True;
     }
 }
